@@ -24,7 +24,8 @@ atype:  i:<min>:<max>:<modulus>:<mv>  (inf, -inf)  |  b:T b:F b:U  |  e:<int> e:
 cv:     n (None) | i<int> | bT | bF | e<int> | x (raised)
 expr:   (c n) (t) (f) (ec n) (u id size) (s id size) (d id size) (ss id) (bl id) (el id)
         (g id <atype>) (+ a b) (- a b) (* a b) (== a b) (!= a b) (< a b) (<= a b) (> a b)
-        (>= a b) (&& a b) (|| a b) (? c t f) (max a …) (ub a) (lb a) (cref a) (vref a);  size ? = unknown
+        (>= a b) (&& a b) (|| a b) (? c t f) (max a …) (ub a) (lb a) (cref a) (vref a)
+        (present a c) = $present(field a) whose existence condition is c;  size ? = unknown
 atree:  (F <atype> child…) function node, (N <atype>) anything else
 -/
 
@@ -161,6 +162,7 @@ partial def exprOf : SExp → Option Expr
   | .list [.atom "lb", a] => do pure (.lower (← exprOf a))
   | .list [.atom "cref", a] => do pure (.cref (← exprOf a))
   | .list [.atom "vref", a] => do pure (.vref (← exprOf a))
+  | .list [.atom "present", a, c] => do pure (.present (← exprOf a) (← exprOf c))
   | .list [.atom op, a, b] => do
     let op ← binOpOf op
     pure (.bin op (← exprOf a) (← exprOf b))
